@@ -157,7 +157,7 @@ def run_unit(unit, acc):
                 check_case(c, acc)
 
 
-THR_LADDER = {"CENTERDISTANCE": [0.5, 1.0, 2.0], "PLANEDISTANCE": [0.5, 1.0, 2.0], "IOU2D": [0.6, 0.3, 0.05], "IOU3D": [0.6, 0.3, 0.05]}
+THR_LADDER = {"CENTERDISTANCE": [0.5, 1.0, 2.0], "PLANEDISTANCE": [0.5, 1.0, 2.0], "IOU2D": [0.6, 0.3, 0.05, 0.0], "IOU3D": [0.6, 0.3, 0.05, 0.0]}
 
 
 def _weight_fn(case, ests, gts):
